@@ -5,7 +5,7 @@
 //! (`buf`, `format`).  Verus proves the framing postcondition for every
 //! buffer but gives no counterexample and rejects many Rust constructs; this
 //! twin checks the same clauses, plus panic-freedom (C01), on every buffer
-//! of at most 4 bytes, and yields a concrete failing buffer.  Bounded.
+//! of at most 3 bytes, and yields a concrete failing buffer.  Bounded.
 use super::*;
 use crate::output::Style;
 
@@ -20,18 +20,17 @@ mod tail {
 //@end
 }
 
-const MAXBUF: usize = 4;
-
-fn tail_laws(style: Style) {
-    let bytes: [u8; MAXBUF] = kani::any();
-    let n: usize = kani::any();
-    kani::assume(n <= MAXBUF);
-    let buf = bytes[..n].to_vec();
+/// Buffers of exactly N symbolic bytes (a concrete length keeps the loops of
+/// `is_ascii`, `extend` and the trimming loop concrete; one harness per
+/// length and style).
+fn tail_laws<const N: usize>(style: Style) {
+    let bytes: [u8; N] = kani::any();
+    let buf = bytes.to_vec();
     let ascii = {
         let mut a = true;
         let mut k = 0;
-        while k < MAXBUF {
-            if k < n && bytes[k] >= 128 {
+        while k < N {
+            if bytes[k] >= 128 {
                 a = false;
             }
             k += 1;
@@ -67,19 +66,27 @@ fn tail_laws(style: Style) {
     }
 }
 
-#[kani::proof]
-#[kani::unwind(30)]
-fn c07_into_buffer_tail_expanded() {
-    tail_laws(Style::Expanded)
+macro_rules! tail_case {
+    ($name:ident, $n:expr, $style:expr) => {
+        #[kani::proof]
+        #[kani::unwind(30)]
+        fn $name() {
+            tail_laws::<$n>($style)
+        }
+    };
 }
-#[kani::proof]
-#[kani::unwind(30)]
-fn c07_into_buffer_tail_compressed() {
-    tail_laws(Style::Compressed)
-}
+tail_case!(c07_into_buffer_tail_expanded_0, 0, Style::Expanded);
+tail_case!(c07_into_buffer_tail_expanded_1, 1, Style::Expanded);
+tail_case!(c07_into_buffer_tail_expanded_2, 2, Style::Expanded);
+tail_case!(c07_into_buffer_tail_expanded_3, 3, Style::Expanded);
+tail_case!(c07_into_buffer_tail_compressed_0, 0, Style::Compressed);
+tail_case!(c07_into_buffer_tail_compressed_1, 1, Style::Compressed);
+tail_case!(c07_into_buffer_tail_compressed_2, 2, Style::Compressed);
+tail_case!(c07_into_buffer_tail_compressed_3, 3, Style::Compressed);
+
 #[kani::proof]
 #[kani::unwind(30)]
 fn cover_cssdata() {
-    let bytes: [u8; MAXBUF] = kani::any();
+    let bytes: [u8; 2] = kani::any();
     kani::cover!(bytes[0] >= 128);
 }
